@@ -29,6 +29,9 @@ PRIMITIVES = [
     "[Br-]", "[Li+]", "[H+]", "[NH3+]CC(=O)[O-]", "C[O-]", "C=C[O-]", "CC(=O)OO", "COO",
     "O=C=O", "N#N", "[C-]#[O+]", "C[N+]#[C-]", "CN=[N+]=[N-]", "O=S=O", "OS(=O)(=O)O",
     "O=[N+]([O-])O", "OP(=O)(O)O", "ClCl", "BrBr", "II", "FF", "ClBr", "ClI", "BrI",
+    # hydrogens that are real graph atoms (isotope labels): atom counts != heavy-atom counts
+    "[2H]O[2H]", "[2H]C([2H])([2H])O", "[2H]c1ccccc1", "[2H]OC", "[3H]CC", "[2H]C(=O)c1ccccc1", "[2H][2H]", "[2H]Cl",
+    "[2H]C([2H])([2H])C(=O)OCC", "[2H]N([2H])C", "CC([2H])(O)C", "[2H]c1ccc(C(=O)OCC)cc1",
 ]
 
 # substituent blocks; atom 0 is the attachment atom
@@ -39,7 +42,7 @@ BLOCKS = [
     "S(=O)(=O)N", "P(=O)(OC)OC", "P(C)C", "B(O)O", "[Si](C)(C)C", "O[Si](C)(C)C", "[Mg]Br",
     "[Zn]Cl", "C(O)=C", "C(O)(O)C", "C(O)(OC)C", "C(O)(O)O", "C(=O)[O-]", "[N+](C)(C)C",
     "[NH3+]", "[O-]", "OO", "OOC", "C(=O)OO", "C(F)(F)F", "OC(=O)OC", "NC(N)=O", "NO",
-    "C(=O)SC", "SS C".replace(" ", ""), "N=[N+]=[N-]", "OC1CCCCO1", "C1CO1", "O[Na]", "OC=C",
+    "C(=O)SC", "SS C".replace(" ", ""), "N=[N+]=[N-]", "OC1CCCCO1", "C1CO1", "O[Na]", "OC=C", "[2H]", "[2H]", "[3H]",
 ]
 
 COUNTER_IONS = ["[Na+]", "[K+]", "[Li+]", "[Cl-]", "[Br-]", "[I-]", "[OH-]", "[H+]", "[NH4+]",
@@ -494,3 +497,31 @@ def mcs_prone_reactions(max_heavy=30, max_mols=4):
 @st.composite
 def mcs_prone_reaction(draw, max_heavy=30, max_mols=4):
     return draw(indexed(mcs_prone_reactions(max_heavy, max_mols))), ["corpus", "mcs-prone"]
+
+
+@functools.lru_cache(maxsize=None)
+def shared_reagent_index(max_heavy=40, max_mols=5):
+    """carbon-containing reactant molecule (canonical) -> curated balanced reactions using it, for molecules used by >=2"""
+    idx = {}
+    for r in load_reactions_capped("balanced", max_heavy, max_mols):
+        a, _ = oracle.split_reaction(r)
+        for m in set(a.split(".")):
+            if (oracle.count_element(m, "C") or 0) > 0:
+                idx.setdefault(m, []).append(r)
+    items = sorted(((m, tuple(v)) for m, v in idx.items() if len(v) >= 2), key=lambda kv: (len(kv[0]), kv[0]))
+    return tuple(items)
+
+
+@st.composite
+def shared_reagent_union(draw):
+    """union of two different curated balanced reactions that use the same reactant molecule: the balanced result
+    lists that molecule twice (identical strings) on the reactant side but nowhere twice on the product side"""
+    items = shared_reagent_index()
+    m, rxs = draw(indexed(items))
+    i = draw(st.integers(0, len(rxs) - 1))
+    j = draw(st.integers(0, len(rxs) - 2))
+    if j >= i:
+        j += 1
+    a1, b1 = oracle.split_reaction(rxs[i])
+    a2, b2 = oracle.split_reaction(rxs[j])
+    return a1 + "." + a2 + ">>" + b1 + "." + b2, ["balanced", "shared-reagent-union"]
